@@ -116,7 +116,8 @@ func (e *EmptyDataProvider) Get(key string) any {
 }
 
 func (e *EmptyDataProvider) GetByField(field reflect.StructField, fallback string) (any, string) {
-	return nil, fallback
+	// no value, but the key (and so the issue path) is the documented one: zog tag, else schema key
+	return nil, GetKeyFromField(field, fallback, nil)
 }
 
 func (e *EmptyDataProvider) GetNestedProvider(key string) DataProvider {
